@@ -480,6 +480,20 @@ def generic_edges():
         expect("E(t='')", lambda: E(t=""), False)
     except Exception as e:  # noqa
         out.append(f"generic edge shapes cannot be declared: {e!r}"[:200])
+    # class-level declarations are not attributes of the state: ClassVar annotations and dunder names
+    try:
+        class WithClassVar(State):
+            registry: typing.ClassVar[int] = 3
+            __marker__: str = "m"
+            x: int
+            y: str = "d"
+        w = WithClassVar(x=1)
+        if (w.x, w.y, WithClassVar.registry, sorted(vars(w))) != (1, "d", 3, ["x", "y"]):
+            out.append(f"a state with a ClassVar declaration: instance {w}, vars {sorted(vars(w))}, registry {WithClassVar.registry!r}")
+        expect("WithClassVar(x='s')", lambda: WithClassVar(x="s"), False)
+        expect("WithClassVar(x=1, y=2)", lambda: WithClassVar(x=1, y=2), False)
+    except Exception as e:  # noqa
+        out.append(f"a state with a ClassVar declaration next to its attributes cannot be declared / built: {e!r}"[:200])
     return out
 
 
@@ -492,7 +506,7 @@ def main():
     seed = int(os.environ.get("VERIF_SEED", "0") or 0)
     rng = random.Random(seed)
     depth = int(os.environ.get("C05_DEPTH", "3"))
-    ts = terms(depth, rng, int(os.environ.get("C05_BUDGET", "400")))
+    ts = terms(depth, rng, int(os.environ.get("C05_BUDGET", "1500")))
     n, p = 0, None
     for t in ts:
         n += 1
